@@ -191,6 +191,20 @@ CLAIMED["C02"] = dict(
     note="trusted: as C01; the Python recogniser gen/dnsgen.py:wf_ref is an independent oracle (search aid), not part of the proof",
     technique="Coq proof (soundness and completeness of the parser model w.r.t. an inductive policy specification) + two-direction recogniser oracle")
 
+CLAIMED["C15"] = dict(
+    category="proof",
+    text="PARTIAL (this is where the technique is weakest). Decided in Coq on objects regenerated from the source each run: abi_table_match - the "
+         "Rust FnTable and the struct in the shipped c_hook.h have the same entries in the same order with the same ABI class for every "
+         "parameter and result, repr(C), and the header's capacities / ABI version are the library's; proved: rr_ip yields exactly 4 or 16 "
+         "bytes, converted names fit the 256-byte buffer, raw_packet copies only within the stated capacity. Validation, not proof: a C driver "
+         "compiled with the system compiler against the shipped header drives the real table along generated hook scripts with every "
+         "out-buffer flush against a guard page and canary-filled; each observation must equal the native model's and the object must match a "
+         "fresh parse after every step.",
+    ref="6/C15",
+    note="trusted: the C compiler, guard pages as the only memory-safety observation, regex translation of the Rust struct and C header, "
+         "documented preconditions of the table; UB inside unsafe blocks and panics across FFI are outside the model",
+    technique="regenerated ABI-table equality decided in Coq + buffer-bound lemmas (proof) + C-driver facade/native correspondence with guard pages")
+
 PENDING_REASON = "check not built yet in this round (model/theorems in progress; see DESIGN.md section 11 for the order of work)"
 
 
